@@ -26,8 +26,9 @@ var rec = cov.New()
 // Trial is one option set and one set of input member names for a type.
 type Trial struct {
 	Opts  []opt.Spec `json:"opts"`
-	Names []string   `json:"names"` // member names (valid UTF-8), tried one per input and all together
-	Dup   bool       `json:"dup"`   // the combined input is also run with AllowDuplicateNames(true)
+	Names []string   `json:"names"`           // member names (valid UTF-8), tried one per input and all together
+	Dup   bool       `json:"dup"`             // the combined input is also run with AllowDuplicateNames(true)
+	Funcs bool       `json:"funcs,omitempty"` // caller-supplied functions for a type that occurs nowhere are passed along (they apply to nothing)
 }
 
 // Case is one struct type with value profiles for Marshal and several trials.
@@ -187,6 +188,13 @@ func Run(c Case) error {
 			return err
 		}
 		optSig := optString(tr.Opts)
+		if tr.Funcs {
+			opts = append(opts,
+				json.WithMarshalers(json.MarshalFunc(func(otherT) ([]byte, error) { return []byte(`"other"`), nil })),
+				json.WithUnmarshalers(json.UnmarshalFunc(func([]byte, *otherT) error { return nil })))
+			optSig += " +functions-for-an-unrelated-type"
+			rec.Class("trial: with functions for an unrelated type")
+		}
 		names := cleanNames(r, tr.Names, special)
 
 		// --- Marshal against the rule model
